@@ -193,6 +193,12 @@ def run_sequence(ctx, case):
             ow, app = kind in ("write_ow", "write_ow_app"), kind in ("append", "append_bad", "write_ow_app")
             before = sha(fn)
             s = build_samples(spec)
+            if len(s) > 0 and k % 2 == 1:
+                # queries on the object before it is written (one row picked by integer, the median-period row): what is written is still the whole table
+                _ = s[0]
+                _ = s[len(s) - 1]
+                if "P" in s.par_names:
+                    _ = s.median_period()
             try:
                 s.write(fn, overwrite=ow, append=app)
                 res = "WOk"
